@@ -382,6 +382,10 @@ converter.register_unstructure_hook({class_name}, _unstructure_{class_name.lower
                 return python_string_literal(ps.default)
             elif isinstance(ps.default, bool):
                 return str(ps.default)
+            elif isinstance(ps.default, float) and ps.default != ps.default:
+                return 'float("nan")'  # (YAML .nan: str() of it is the bare name nan)
+            elif isinstance(ps.default, float) and ps.default in (float("inf"), float("-inf")):
+                return 'float("inf")' if ps.default > 0 else 'float("-inf")'  # (YAML .inf / -.inf)
             elif isinstance(ps.default, (int, float)):
                 return str(ps.default)
             else:
